@@ -298,9 +298,6 @@ func runHarness(ld *loaded, h *Harness, tier tierCfg, known []*sym.KnownFinding,
 		return &sym.HarnessResult{Name: h.Name, Inconclusive: []string{"harness function not found in SSA"}}
 	}
 	order := []string{"z3", "cvc5"}
-	if h.Encoding == "int" {
-		order = []string{"cvc5", "z3"}
-	}
 	if h.Solver != "" {
 		order = strings.Split(h.Solver, ",")
 	}
@@ -514,6 +511,7 @@ func cmdCheck(args []string) int {
 	if n <= 0 {
 		n = 4
 	}
+	sym.Tokens = make(chan struct{}, 16)
 	results := make([]*sym.HarnessResult, len(hs))
 	var wg sync.WaitGroup
 	sem := make(chan struct{}, n)
@@ -523,7 +521,7 @@ func cmdCheck(args []string) int {
 			defer wg.Done()
 			sem <- struct{}{}
 			defer func() { <-sem }()
-			results[i] = runHarness(ld, h, tier, known, seed, *verbose, 4)
+			results[i] = runHarness(ld, h, tier, known, seed, *verbose, 8)
 		}(i, h)
 	}
 	wg.Wait()
